@@ -20,7 +20,7 @@ static long g_unexpectedCopies = 0; // a copy happened that the harness did not 
 static int  g_cloneId = 0;          // lifetime id to stamp on the next announced copy
 class Obj;
 static const Obj * g_default = NULL;
-static bool g_inProbe = false, g_keepStderr = false;
+static bool g_inProbe = false, g_keepStderr = false, g_hazardSurvived = false;
 static void Log(char k, int id, const void * a) { if (g_logN < 128) { g_log[g_logN].kind = k; g_log[g_logN].id = id; g_log[g_logN].addr = a; g_logN++; } else g_logOverflow = true; }
 
 class Obj : public RefCountable {
@@ -105,7 +105,7 @@ struct Op { OpKind k; int a, b; };
 
 struct World {
    Pool * pool; Ref<Obj> r[3]; ConstRef<Obj> c0;
-   RefModel m; int nextId; long storageBase; bool broken; std::string last;
+   RefModel m; int nextId; long storageBase; bool broken; std::string last, initFail, initFailKey;
    World() : pool(NULL), nextId(1), storageBase(0), broken(false) {}
    const ConstRef<Obj> & V(int i) const { return (i < 3) ? (const ConstRef<Obj> &)r[i] : c0; }
    ConstRef<Obj> & V(int i) { return (i < 3) ? (ConstRef<Obj> &)r[i] : c0; }
@@ -116,6 +116,9 @@ struct World {
       for (int i = 0; i < NVARS; i++) { V(i).Reset(); m.Drop(m.v[i]); }
       // objects left with count 0 behind a (now dropped) non-counting alias: adopt and drop
       for (bool again = true; again;) { again = false; for (size_t o = 0; o < m.objs.size(); o++) if (m.objs[o].alive && m.objs[o].count == 0) { { Ref<Obj> t(m.objs[o].addr); } m.Kill((int)o); again = true; break; } }
+      // never crash on the way out: a pool that still has nodes in use here (only possible with a defective implementation; the
+      // "release all refs; pool.Drain()" operation reports that) is leaked instead of destroyed, because ~ObjectPool would abort
+      for (const Pool::ObjectSlab * s = pool->_firstSlab; s; s = s->_data._next) if (s->_data._numNodesInUse > 0) return;
       delete pool;
    }
 };
@@ -180,7 +183,8 @@ public:
       w.storageBase = g_liveStorage;                   // baseline after warm-up
       for (size_t i = 0; i < starts[s].prefix.size(); i++) {
          std::string msg, key; int st = Apply(w, starts[s].prefix[i], msg, key);
-         if (st != seqx::SEQX_OK) { fprintf(stderr, "C10: start state %d cannot be built: op %s -> %d %s\n", s, OpName(starts[s].prefix[i]).c_str(), st, msg.c_str()); exit(3); }
+         // a start-state prefix that fails is a failing history like any other: it is reported by the first operation applied to this start state
+         if (st != seqx::SEQX_OK) { w.initFail = verif::Fmt("[while building the start state, step %d] ", (int)i + 1) + (st == seqx::SEQX_VIOLATION ? msg : "operation not enabled: " + OpName(starts[s].prefix[i])); w.initFailKey = (st == seqx::SEQX_VIOLATION) ? key : "infra"; break; }
       }
    }
 
@@ -354,16 +358,18 @@ public:
    {
       const Op & o = ops[opi]; const std::string kk = KindKey[o.k];
 #define FAIL(k, text) do { msg = OpName(opi) + ": " + (text); key = std::string(k) + ":" + kk; w.broken = true; return seqx::SEQX_VIOLATION; } while (0)
+      if (!w.initFail.empty()) { msg = w.initFail; key = w.initFailKey; w.broken = true; return (key == "infra") ? -1 : seqx::SEQX_VIOLATION; }
       RefModel m2 = w.m; int newObj = -1;
       if (!Step(m2, o, w.nextId, 0, newObj)) return seqx::SEQX_DISABLED;
       if (!m2.InDomain(maxLive)) return seqx::SEQX_DISABLED;
       bool probeFirst = false;
-      if (o.k == ADOPT_LINK && !g_inProbe) {   // would the new referent die if the old reference were dropped BEFORE the new one is taken?
+      if (o.k == ADOPT_LINK && !g_inProbe && !g_hazardSurvived) {   // would the new referent die if the old reference were dropped BEFORE the new one is taken?
          RefModel m3 = w.m; const int target = m3.objs[m3.v[o.a].obj].link; m3.Drop(m3.v[o.a]); probeFirst = !m3.objs[target].alive;
       }
       if (probeFirst) {
-         // On the pinned tree this operation then releases the object it is about to reference (a heap object: use-after-free, ASan kills the
-         // process): run it first in a forked child, so that the exploring worker survives and the exploration stays complete.
+         // On the pinned tree this operation then releases the object it is about to reference (a heap object is deleted, a pooled one may lose
+         // its whole slab: use-after-free, ASan kills the process): run it first in a forked child, so that the exploring worker survives and
+         // the exploration stays complete.
          int pfd[2]; if (pipe(pfd) != 0) { perror("pipe"); exit(3); }
          fflush(stdout); fflush(stderr);
          const pid_t pid = fork(); if (pid < 0) { perror("fork"); exit(3); }
@@ -384,6 +390,7 @@ public:
          const size_t a = got.find('\n'), b = (a == std::string::npos) ? a : got.find('\n', a + 1);
          if (b == std::string::npos) { msg = "probe child returned garbage"; key = "infra"; return -1; }
          if (atoi(got.c_str()) != seqx::SEQX_OK) { key = got.substr(a + 1, b - a - 1); msg = got.substr(b + 1); w.broken = true; return atoi(got.c_str()); }
+         g_hazardSurvived = true;   // this tree handles the situation: from now on this process executes it directly (a crash would still be caught and attributed by the engine)
       }
       g_logN = 0; g_logOverflow = false; g_cloneId = 0;
       const RefModel & m = w.m;   // state before the op
@@ -489,6 +496,7 @@ public:
       for (int i = 0; i < NVARS; i++) { const MVar & x = m.v[i]; if (x.obj >= 0) out += verif::Fmt("%d%c|", rank[x.obj], x.counting ? 'c' : 'a'); else out += verif::Fmt("n%d|", x.err); }
       std::vector<int> byRank(m.objs.size(), -1); for (size_t o = 0; o < m.objs.size(); o++) if (m.objs[o].alive) byRank[rank[o]] = (int)o;
       for (size_t r = 0; r < byRank.size() && byRank[r] >= 0; r++) { const MObj & mo = m.objs[byRank[r]]; out += verif::Fmt("%c%d>%d;", mo.pooled ? 'P' : 'H', mo.count, mo.link >= 0 ? rank[mo.link] : -1); }
+      if (!w.initFail.empty()) { out += "INITFAIL"; return; }
       std::string pm; if (!PoolWalk(w, m, &out, pm)) out += "BROKEN:" + pm;
    }
    void Outcome(const World & w, std::string & out) const
@@ -504,7 +512,7 @@ int main(int argc, char ** argv)
 {
    verif::Args args; args.Parse(argc, argv);
    verif::Result res; res.harness = "C10_refcount_seq";
-   int maxLive = 3; if (args.kv.count("maxlive")) maxLive = atoi(args.kv["maxlive"].c_str());
+   int maxLive = args.Thorough() ? 4 : 3; if (args.kv.count("maxlive")) maxLive = atoi(args.kv["maxlive"].c_str());
    RefCountModel model(maxLive);
    seqx::Explorer<RefCountModel> ex(model, args, res, "refcount-seq");
    if (!args.replay.empty()) { g_keepStderr = true; verif::ReplayDoc d; if (!d.Load(args.replay)) { fprintf(stderr, "cannot read %s\n", args.replay.c_str()); return 3; } return ex.ReplayFile(d); }
